@@ -151,6 +151,13 @@ pub fn ring_jobs(thorough: bool) -> Vec<Job> {
         v.push(job(Cfg::new("ring.fix", &[("cap", cap), ("len", len)]), true, thorough));
         v.push(job(Cfg::new("ring.grow", &[("cap", cap), ("len", len)]), true, thorough));
     }
+    // long scripted fill / drain cycles for large and unusual capacities
+    v.push(job(Cfg::new("ringscript.arr63", &[("cap", 63)]), false, thorough));
+    v.push(job(Cfg::new("ringscript.arr64", &[("cap", 64)]), false, thorough));
+    v.push(job(Cfg::new("ringscript.arr96", &[("cap", 96)]), false, thorough));
+    v.push(job(Cfg::new("ringscript.arr128", &[("cap", 128)]), false, thorough));
+    v.push(job(Cfg::new("ringscript.fix", &[("cap", 70)]), false, thorough));
+    v.push(job(Cfg::new("ringscript.grow", &[("cap", 70)]), false, thorough));
     v
 }
 
